@@ -190,7 +190,9 @@ func genLines(r interface{ IntN(int) int }, n int, includes []string, damage boo
 			}
 			l += [...]string{" host$ A 10.0.0.$", " ${0,3,d}.rev PTR host-${-1,2,x}.example.org.", " $.gen 300 IN CNAME $.target", " h$ TXT \"n$\" \"$$\"", " g${1000} A 10.1.$.1",
 				" w$ TXT \"${0,255,d}\"", " w$ TXT \"${0,256,x}\"", " w$ TXT \"${0,1000000,d}\" \"${0,70000,o}\"", " ${0,4294967296,d} A 10.0.0.1", " w$ TXT \"${0,-1,d}\"",
-				" e$ TXT abc\\", " e$ TXT \\", " e$ TXT a\\$\\", " e\\$ A 10.0.0.$\\"}[r.IntN(14)]
+				" e$ TXT abc\\", " e$ TXT \\", " e$ TXT a\\$\\", " e\\$ A 10.0.0.$\\",
+				// modifiers with bases the grammar may or may not know (BIND has a nibble mode, n / N), narrow fields, wide values
+				" ${0,3,n}.rev PTR host$.example.org.", " ${4096,5,N}.rev PTR h.example.org.", " ${0,1,n}.ip6 PTR h$.example.org.", " b$ TXT \"${0,2,b}\"", " z$ TXT \"${255,1,z}\" \"${0,0,n}\""}[r.IntN(19)]
 			out = append(out, l)
 		default:
 			if !damage {
